@@ -13,46 +13,54 @@ Fixpoint drop_all (l : list N) (s : tsys) : tsys :=
 Fixpoint ins (x : N) (l : list N) : list N :=
   match l with [] => [x] | y :: t => if x <=? y then x :: l else y :: ins x t end.
 
-Fixpoint tok_ops (fuel : nat) (ops : list N) (s : tsys) (n : N) (own srv stl dead : list N) (nclones : N) : args :=
+Fixpoint tok_ops (fuel : nat) (ops : list N) (s : tsys) (n : N) (own srv stl kpl dead : list N) (nclones : N) : args :=
   match fuel with
   | O => []
   | S f =>
     match ops with
     | op :: x :: rest =>
-      let '(ready, s', n', own', srv', stl', dead', nc') :=
+      let '(ready, s', n', own', srv', stl', kpl', dead', nc') :=
         match op with
-        | 1 => (2, new_fut n s, n + 1, own ++ [if (x =? 0) || memNb x dead then 0 else x], srv, stl, dead, N.max nclones (x + 1))
+        | 1 => (2, new_fut n s, n + 1, own ++ [if (x =? 0) || memNb x dead then 0 else x], srv, stl, kpl, dead, N.max nclones (x + 1))
         | 2 => match fut_listener x (futs s) with
-               | Some _ => let '(r, s') := poll_fut x s in ((if r then 1 else 0), s', n, own, srv, stl, dead, nclones)
-               | None => (2, s, n, own, srv, stl, dead, nclones)
+               | Some _ => let '(r, s') := poll_fut x s in ((if r then 1 else 0), s', n, own, srv, stl, kpl, dead, nclones)
+               | None => (2, s, n, own, srv, stl, kpl, dead, nclones)
                end
-        | 3 => (2, drop_token x s, n, own, filter (fun j => negb (j =? x)) srv, filter (fun j => negb (j =? x)) stl, dead, nclones)
-        | 4 => (2, drop_fut x s, n, own, srv, stl, dead, nclones)
+        | 3 => (2, drop_token x s, n, own, filter (fun j => negb (j =? x)) srv, filter (fun j => negb (j =? x)) stl, kpl, dead, nclones)
+        | 4 => (2, drop_fut x s, n, own, srv, stl, kpl, dead, nclones)
         | 5 => if memNb x (live s) && negb (memNb x srv) && negb (memNb x stl) then
-                 (if memNb (nthN_d own x) dead then (2, drop_token x s, n, own, srv, stl, dead, nclones)   (* its runner was shut down: the connection ends at once *)
-                  else (2, s, n, own, ins x srv, stl, dead, nclones))                                    (* the token moves into Token::run: still in use *)
-               else (2, s, n, own, srv, stl, dead, nclones)
+                 (if memNb (nthN_d own x) dead then (2, drop_token x s, n, own, srv, stl, kpl, dead, nclones)   (* its runner was shut down: the connection ends at once *)
+                  else (2, s, n, own, ins x srv, stl, kpl, dead, nclones))                                    (* the token moves into Token::run: still in use *)
+               else (2, s, n, own, srv, stl, kpl, dead, nclones)
         | 8 | 9 =>
           (* the token moves into Token::run on a connection that carries one complete request (8: without KeepConn, 9: with) and whose
              write side never becomes ready: the handler returns at once, Request::close stalls in its first write - the request is in
              flight, the token stays in use until the connection task is dropped (op 3 / 6), whatever is shut down meanwhile *)
           if memNb x (live s) && negb (memNb x srv) && negb (memNb x stl) then
-            (if memNb (nthN_d own x) dead then (2, drop_token x s, n, own, srv, stl, dead, nclones)   (* shut down before it started: nothing new is started *)
-             else (2, s, n, own, srv, ins x stl, dead, nclones))
-          else (2, s, n, own, srv, stl, dead, nclones)
-        | 6 => (2, drop_token x s, n, own, filter (fun j => negb (j =? x)) srv, filter (fun j => negb (j =? x)) stl, dead, nclones)
+            (if memNb (nthN_d own x) dead then (2, drop_token x s, n, own, srv, stl, kpl, dead, nclones)   (* shut down before it started: nothing new is started *)
+             else (2, s, n, own, srv, ins x stl, (if op =? 9 then ins x kpl else kpl), dead, nclones))
+          else (2, s, n, own, srv, stl, kpl, dead, nclones)
+        | 6 => (2, drop_token x s, n, own, filter (fun j => negb (j =? x)) srv, filter (fun j => negb (j =? x)) stl, kpl, dead, nclones)
+        | 10 =>
+          (* the stalled connection x gets its epilogue out: the request in flight is completed; the connection ends unless it had
+             KeepConn and its runner is still running (then it idles like after op 5) *)
+          if memNb x stl then
+            (if memNb x kpl && negb (memNb (nthN_d own x) dead)
+             then (2, s, n, own, ins x srv, filter (fun j => negb (j =? x)) stl, kpl, dead, nclones)
+             else (2, drop_token x s, n, own, srv, filter (fun j => negb (j =? x)) stl, kpl, dead, nclones))
+          else (2, s, n, own, srv, stl, kpl, dead, nclones)
         | 7 =>
           (* Runner::shutdown on clone x: its idle connections end (in index order), each dropping its token *)
           if (1 <=? x) && (x <? nclones) && negb (memNb x dead)
              && negb (existsb (fun e => nthN_d own (fst e) =? x) (futs s)) then
             let mine := filter (fun i => nthN_d own i =? x) srv in
-            (2, drop_all mine s, n, own, filter (fun i => negb (nthN_d own i =? x)) srv, stl, x :: dead, nclones)
-          else (2, s, n, own, srv, stl, dead, nclones)
-        | _ => (2, s, n, own, srv, stl, dead, nclones)
+            (2, drop_all mine s, n, own, filter (fun i => negb (nthN_d own i =? x)) srv, stl, kpl, x :: dead, nclones)
+          else (2, s, n, own, srv, stl, kpl, dead, nclones)
+        | _ => (2, s, n, own, srv, stl, kpl, dead, nclones)
         end in
       ([len (live s'); ready] ++ map (fun i => match find (fun e => fst e =? i) (wakes s') with Some e => snd e | None => 0 end)
                                      (map N.of_nat (seq 0 (N.to_nat n'))))
-      :: tok_ops f rest s' n' own' srv' stl' dead' nc'
+      :: tok_ops f rest s' n' own' srv' stl' kpl' dead' nc'
     | _ => []
     end
   end.
@@ -72,7 +80,7 @@ Definition run_tok_fill (a : args) : args :=
   let '(r, fl) := tok_fill (N.to_nat (m + 1)) 0 (init m) 0 in [[r; fl]].
 
 Definition run_tok_run (a : args) : args :=
-  tok_ops (length (arg a 1)) (arg a 1) (init (N.max 1 (argn a 0))) 0 [] [] [] [] 1.
+  tok_ops (length (arg a 1)) (arg a 1) (init (N.max 1 (argn a 0))) 0 [] [] [] [] [] 1.
 
 Fixpoint wg_ops (fuel : nat) (ops : list N) (s : wg) (t : N) : args :=
   match fuel with
